@@ -3,6 +3,7 @@ package vnode
 import (
 	"io"
 
+	"github.com/cube2222/octosql/aggregates"
 	"github.com/cube2222/octosql/execution"
 	"github.com/cube2222/octosql/execution/nodes"
 	"github.com/cube2222/octosql/octosql"
@@ -186,4 +187,39 @@ func VerifC05Batch() {
 	}
 	zzverif.Assert(firstN, "not-emitted-rows-sort-after-emitted")
 	zzverif.Assert(len(out) == want, "exactly-min-n-rows")
+}
+
+// VerifC05NestedLimit: Limit(n) over a CustomTriggerGroupBy (count(*) per event time, WATERMARK
+// trigger) over Limit(m) over a watermarked stream — two Limit nodes alive in the same query, as
+// in SELECT ... FROM (SELECT ... LIMIT m) GROUP BY ... TRIGGER ON WATERMARK LIMIT n. The outer
+// LIMIT must return exactly min(n, number of groups the inner prefix forms) rows: stopping the
+// query when n is reached must not be mistaken by the inner Limit for its own stop.
+func VerifC05NestedLimit() {
+	s := ndTimedScript("s", zzverif.Param("L"), zzverif.Param("T"), false)
+	for i := range s.msgs {
+		if s.msgs[i].Kind == vx.MsgRecord {
+			r := s.msgs[i].Rec
+			s.msgs[i].Rec = execution.NewRecord([]octosql.Value{octosql.NewTime(r.EventTime), r.Values[1]}, false, r.EventTime)
+		}
+	}
+	inner := int64(1 + zzverif.Choice("inner", zzverif.Param("L")+1))
+	outer := int64(1 + zzverif.Choice("outer", zzverif.Param("L")))
+	innerLimit := nodes.NewLimit(vx.NewScriptSource(s.msgs), execution.NewConstant(octosql.NewInt(inner)))
+	groupBy := nodes.NewCustomTriggerGroupBy(
+		[]func() nodes.Aggregate{aggregates.NewCountPrototype()},
+		[]execution.Expression{execution.NewConstant(octosql.NewBoolean(true))},
+		[]execution.Expression{execution.NewVariable(0, 0)},
+		0, innerLimit, execution.NewWatermarkTriggerPrototype(0))
+	node := nodes.NewLimit(groupBy, execution.NewConstant(octosql.NewInt(outer)))
+	sink := &vx.Sink{}
+	err := vx.RunNode(node, sink)
+	zzverif.Reach("ran")
+	zzverif.Assert(err == nil, "no-error")
+	n := 0
+	for _, o := range sink.Out {
+		if o.Kind == vx.MsgRecord {
+			n++
+		}
+	}
+	zzverif.Assert(int64(n) <= outer, "at-most-n-rows")
 }
